@@ -170,3 +170,176 @@ def cached_result_mutations(index, files):
                                                                  f"{pb[0][0]}), which is the object returned by memoised {cal}()"))
                                                 break
     return memo, findings
+
+
+# ------------------------------------------------------------------------------------------------------------------
+# lazily cached instance attributes:  if not hasattr(self, "A"): self.A = f(self.B, ...) ; return self.A
+# The cached value goes stale when one of the attributes it was computed from is assigned after construction.
+
+def _self_reads(node, selfname="self"):
+    return {n.attr for n in ast.walk(node) if isinstance(n, ast.Attribute) and isinstance(n.value, ast.Name) and n.value.id == selfname
+            and isinstance(n.ctx, ast.Load)}
+
+
+def _guard_attr(test, selfname="self"):
+    """attribute name tested by a 'not cached yet' guard, or None"""
+    t = test
+    neg = False
+    if isinstance(t, ast.UnaryOp) and isinstance(t.op, ast.Not):
+        t, neg = t.operand, True
+    if isinstance(t, ast.Call) and dotted(t.func) == "hasattr" and len(t.args) == 2 and isinstance(t.args[0], ast.Name) \
+            and t.args[0].id == selfname and isinstance(t.args[1], ast.Constant) and isinstance(t.args[1].value, str):
+        return t.args[1].value, neg  # neg=True: `not hasattr` -> body computes
+    if isinstance(t, ast.Compare) and len(t.ops) == 1 and isinstance(t.ops[0], (ast.Is, ast.IsNot, ast.Eq, ast.NotEq)) \
+            and isinstance(t.comparators[0], ast.Constant) and t.comparators[0].value is None:
+        left = t.left
+        if isinstance(left, ast.Call) and dotted(left.func) == "getattr" and len(left.args) >= 2 and isinstance(left.args[1], ast.Constant):
+            return left.args[1].value, isinstance(t.ops[0], (ast.Is, ast.Eq))
+        if isinstance(left, ast.Attribute) and isinstance(left.value, ast.Name) and left.value.id == selfname:
+            return left.attr, isinstance(t.ops[0], (ast.Is, ast.Eq))
+    if isinstance(t, ast.Compare) and len(t.ops) == 1 and isinstance(t.ops[0], (ast.In, ast.NotIn)) and isinstance(t.left, ast.Constant) \
+            and norm_src(t.comparators[0]) in (f"{selfname}.__dict__", f"vars({selfname})"):
+        return t.left.value, isinstance(t.ops[0], ast.NotIn)
+    return None
+
+
+def lazy_attribute_caches(index, files):
+    """-> [(rel, class name, method node, cached attribute, [stale dependencies 'attr <- writer'])]"""
+    out = []
+    # every `<anything>.<attr> = ...` outside __init__ anywhere in the files, by attribute name
+    late_writers = {}
+    for rel in files:
+        for fn in [n for n in ast.walk(index.module(rel)) if isinstance(n, (ast.FunctionDef, ast.AsyncFunctionDef))]:
+            if fn.name == "__init__":
+                continue
+            for st in walk_no_nested(fn):
+                if isinstance(st, (ast.Assign, ast.AugAssign, ast.AnnAssign)):
+                    tg = st.targets if isinstance(st, ast.Assign) else [st.target]
+                    for t in tg:
+                        for e in ([t] if not isinstance(t, (ast.Tuple, ast.List)) else t.elts):
+                            if isinstance(e, ast.Attribute):
+                                late_writers.setdefault(e.attr, set()).add(f"{rel.split('/')[-1]}:{fn.name}")
+                if isinstance(st, ast.Call) and dotted(st.func) == "setattr" and len(st.args) >= 2 and isinstance(st.args[1], ast.Constant):
+                    late_writers.setdefault(st.args[1].value, set()).add(f"{rel.split('/')[-1]}:{fn.name}")
+    for rel in files:
+        mod = index.module(rel)
+        for cls in [n for n in ast.walk(mod) if isinstance(n, ast.ClassDef)]:
+            methods = {m.name: m for m in cls.body if isinstance(m, (ast.FunctionDef, ast.AsyncFunctionDef))}
+            for m in methods.values():
+                if not m.args.args:
+                    continue
+                selfname = m.args.args[0].arg
+                for st in walk_no_nested(m):
+                    if not isinstance(st, ast.If):
+                        continue
+                    g = _guard_attr(st.test, selfname)
+                    if g is None:
+                        continue
+                    attr, body_computes = g
+                    block = st.body if body_computes else st.orelse
+                    stores = [s for s in block if isinstance(s, (ast.Assign, ast.AnnAssign)) and any(
+                        isinstance(t, ast.Attribute) and isinstance(t.value, ast.Name) and t.value.id == selfname and t.attr == attr
+                        for t in (s.targets if isinstance(s, ast.Assign) else [s.target]))]
+                    if not stores:
+                        continue
+                    deps = set()
+                    for s in stores:
+                        deps |= _self_reads(s.value, selfname)
+                        for c in ast.walk(s.value):  # one level through self.method()
+                            if isinstance(c, ast.Call) and isinstance(c.func, ast.Attribute) and isinstance(c.func.value, ast.Name) \
+                                    and c.func.value.id == selfname and c.func.attr in methods:
+                                deps |= _self_reads(methods[c.func.attr], methods[c.func.attr].args.args[0].arg if methods[c.func.attr].args.args else "self")
+                    deps.discard(attr)
+                    stale = sorted(f"{d} <- {sorted(late_writers[d])[0]}" for d in deps if d in late_writers and d not in methods)
+                    # the cache itself being reset by another method makes it a managed cache: still report only stale deps
+                    invalidated = [w for w in late_writers.get(attr, ()) if not w.endswith(":" + m.name)]
+                    out.append((rel, cls.name, m, attr, stale, invalidated))
+    return out
+
+
+# ------------------------------------------------------------------------------------------------------------------
+# iteration order of sets of strings is randomised per process (PYTHONHASHSEED)
+
+def _is_set_valued(e, local_sets):
+    if isinstance(e, (ast.Set, ast.SetComp)):
+        return True
+    if isinstance(e, ast.Call):
+        d = dotted(e.func) or ""
+        if d in ("set", "frozenset"):
+            return True
+        if isinstance(e.func, ast.Attribute) and e.func.attr in ("union", "intersection", "difference", "symmetric_difference", "copy") \
+                and _is_set_valued(e.func.value, local_sets):
+            return True
+    if isinstance(e, ast.BinOp) and isinstance(e.op, (ast.BitOr, ast.BitAnd, ast.Sub, ast.BitXor)):
+        return _is_set_valued(e.left, local_sets) or _is_set_valued(e.right, local_sets)
+    if isinstance(e, ast.Name):
+        return e.id in local_sets
+    return False
+
+
+ORDER_FREE_CONSUMERS = ("sorted", "min", "max", "sum", "len", "any", "all", "set", "frozenset")
+
+
+def set_order_dependence(index, files):
+    """-> [(rel, node, text)]: places where the iteration order of a set reaches an ordered result"""
+    out = []
+    for rel in files:
+        mod = index.module(rel)
+        scopes = [n for n in ast.walk(mod) if isinstance(n, (ast.FunctionDef, ast.AsyncFunctionDef))] + [mod]
+        for scope in scopes:
+            nodes = list(walk_no_nested(scope)) if not isinstance(scope, ast.Module) else [x for st in scope.body if not isinstance(
+                st, (ast.FunctionDef, ast.ClassDef, ast.AsyncFunctionDef)) for x in ast.walk(st)]
+            assigns = {}
+            for st in nodes:
+                if isinstance(st, ast.Assign) and len(st.targets) == 1 and isinstance(st.targets[0], ast.Name):
+                    assigns.setdefault(st.targets[0].id, []).append(st.value)
+            local_sets = set()
+            changed = True
+            while changed:
+                changed = False
+                for name, vals in assigns.items():
+                    if name not in local_sets and vals and all(_is_set_valued(v, local_sets) for v in vals):
+                        local_sets.add(name)
+                        changed = True
+            for n in nodes:
+                if isinstance(n, ast.For) and _is_set_valued(n.iter, local_sets):
+                    out.append((rel, n, f"`for {norm_src(n.target)} in {norm_src(n.iter)[:50]}` iterates a set"))
+                if isinstance(n, (ast.ListComp, ast.GeneratorExp)) and any(_is_set_valued(g.iter, local_sets) for g in n.generators):
+                    p = getattr(n, "_parent", None)
+                    if isinstance(p, ast.Call) and (dotted(p.func) or "") in ORDER_FREE_CONSUMERS:
+                        continue
+                    out.append((rel, n, f"`{norm_src(n)[:60]}` builds an ordered sequence from a set"))
+                if isinstance(n, ast.Call) and (dotted(n.func) or "") in ("list", "tuple", "enumerate", "iter", "next", "zip", "np.array", "str.join") \
+                        and n.args and any(_is_set_valued(a, local_sets) for a in n.args):
+                    p = getattr(n, "_parent", None)
+                    if isinstance(p, ast.Call) and (dotted(p.func) or "") in ORDER_FREE_CONSUMERS:
+                        continue
+                    out.append((rel, n, f"`{norm_src(n)[:60]}` turns a set into an ordered sequence"))
+                if isinstance(n, ast.Call) and isinstance(n.func, ast.Attribute) and n.func.attr in ("pop", "join") and (
+                        (n.func.attr == "pop" and not n.args and _is_set_valued(n.func.value, local_sets)) or
+                        (n.func.attr == "join" and n.args and _is_set_valued(n.args[0], local_sets))):
+                    out.append((rel, n, f"`{norm_src(n)[:60]}` depends on set order"))
+    return out
+
+
+def hidden_state_rules(index, rep, rule, files, what):
+    """`what` is computed from its inputs only: the given files keep no module-/class-level container their functions write, hand out no
+    memoised object that callers modify, and cache no attribute lazily whose inputs are assigned later.  One obligation per file and kind."""
+    from .core import loc
+    from .c14 import shared_container_writes
+    for rel in files:
+        bad = [(name, kind, st, w) for name, kind, st, w in shared_container_writes(index, rel) if w]
+        rep.check(not bad, rule, f"{rel}: no shared container written",
+                  f"{what} can depend on earlier calls/runs: " + "; ".join(f"{kind}-level container {name} is written at {w[:3]}" for name, kind, st, w in bad[:3]),
+                  loc=loc(rel, bad[0][2]) if bad else rel)
+    memo, findings = cached_result_mutations(index, files)
+    mine = [f for f in findings if f[0] in files]
+    rep.check(not mine, rule, "no memoised result is modified",
+              f"{what} can depend on earlier calls/runs: " + "; ".join(f[3] for f in mine[:2]), loc=loc(mine[0][0], mine[0][1]) if mine else files[0])
+    lazy = lazy_attribute_caches(index, files)
+    for rel, cn, m, attr, stale, invalidated in lazy:
+        rep.check(not stale or bool(invalidated), rule, f"lazy-cache:{cn}.{m.name}:{attr}",
+                  f"{cn}.{m.name} keeps its first result in self.{attr}, but what it is computed from is assigned later ({'; '.join(stale[:3])}) "
+                  f"and nothing resets the cached value: {what} depends on when it was first asked for", loc=loc(rel, m))
+    if not lazy:
+        rep.ok(rule, "no stale lazily cached attribute")
